@@ -738,6 +738,7 @@ SITES = {
     "C01": ["eval_rule", "eval_when_condition_block"],
     "C08": ["index_sites"],
     "C03": ["gac_negation"],
+    "C15": ["memo_sites"],
 }
 
 
